@@ -1,6 +1,7 @@
 (* C01 -- CTMC jump rates are the Levy-measure masses of the grid cells.  Only statements; proofs in Proofs/C01_Chain.v,
    Proofs/C01_Chain2d.v (dimension 2), Proofs/C01_Chain3d.v (dimension 3), Proofs/C01_GenTie.v (generated loops), Proofs/C01_Factory.v
-   (ALIAS / TABLE path, composed with C02) and Proofs/C01_ChainR.v (over R, composed with C09).
+   (ALIAS / TABLE path, composed with C02), Proofs/C01_ChainR.v (over R, composed with C09), Proofs/C01_NdClamp.v (wave 7: the code's n-d
+   clamp, Model/ChainNdClamp.v) and Proofs/C01_CopulaTrunc.v (wave 7: which measure a copula chain integrates; composed with C12/C19).
    Model: Model/Chain.v, Model/Chain3d.v (samplingfactory.create_q_vector / compute_intensity_of_jumps, TruncatedLevyMeasure) over
    Model/Grid.v; `_truncated_interval` is the py2coq-generated Gen/GenC01Trunc.v.
    The theorems are stated inside a Section for an ARBITRARY interval mass `mass a b` (= LevyMeasure.integrate) that is
@@ -12,7 +13,7 @@
    probability-step grid is covered by the per-state oracle of props/C01.py, not by these theorems. *)
 From Coq Require Import ZArith QArith List.
 From RV Require Import Base.QB Model.Grid Gen.GenC01Trunc Model.Chain Model.Chain3d Proofs.C13_Grid Proofs.C01_Chain Proofs.C01_Chain2d
-  Proofs.C01_Chain3d Gen.GenTieChain Proofs.Tie_Chain Proofs.C01_GenTie Gen.GenTieChain2d Proofs.Tie_Chain2d.
+  Proofs.C01_Chain3d Gen.GenTieChain Proofs.Tie_Chain Proofs.C01_GenTie Gen.GenTieChain2d Proofs.Tie_Chain2d Model.ChainNdClamp Proofs.C01_NdClamp.
 From RV Require Model.StepLaw Model.Bst Model.Alias Model.Table Model.Factory Proofs.C02_Alias Proofs.C02_Table Proofs.C01_Factory.
 Import ListNotations.
 Open Scope Q_scope.
@@ -95,7 +96,12 @@ End Measure.
 
 (* ---------------- dimension 2: the product grid of a copula chain (Model/Chain.v: q_entry2 / q_matrix2 / intensity2, the 3^2-1
    blocks of compute_intensity_of_jumps).  mass2 a b = model.mass(a, b), the rectangle mass: additive under a split of either
-   coordinate interval and non-negative ON BOXES THAT AVOID THE ORIGIN (what C12 is about; not formally composed) *)
+   coordinate interval and non-negative ON BOXES THAT AVOID THE ORIGIN.  WHICH measure: model = the chain's model_tilde, i.e. the copula
+   applied to the margins TRUNCATED to the axes -- not the restriction of the model's Levy measure to the grid box; see the part
+   "WHICH MEASURE" below, where additivity is a theorem for the code's mass (composition with C12/C19) and the other reading is refuted.
+   Wave 7 (audit 4 X-d): the rates are those of the code's clamp (Model/ChainNdClamp.v q_matrix2_c / q_tensor3_c: CTMCGrid.right_point on a
+   CoordinateND clamps EVERY axis with len(axes[0]); None = IndexError); the theorems need the axes to have EQUAL LENGTHS, as every
+   constructor of the library builds them -- C01_unequal_lengths_refuted shows the hypothesis cannot be dropped. *)
 Section Measure2d.
   Variable mid : Q -> Q -> Q.
   Hypothesis mid_between : forall x y, x < y -> x < mid x y /\ mid x y < y.
@@ -110,16 +116,21 @@ Section Measure2d.
   Hypothesis mass2_proper : forall a1 a2 b1 b2 a1' a2' b1' b2', a1 == a1' -> a2 == a2' -> b1 == b1' -> b2 == b2' ->
     mass2 (a1, a2) (b1, b2) == mass2 (a1', a2') (b1', b2').
 
-  (* the rates of ALL non-origin states of the product grid sum to the intensity the process reports (the eight blocks),
-     for any two admissible axes of any lengths sharing the origin index: telescoping axis by axis *)
-  Theorem C01_sum_rates_is_intensity_2d : forall xs ys o hx hy, admissible xs o hx -> admissible ys o hy ->
-    qsum2 (q_matrix2 mid mass2 xs ys o) == intensity2 mid mass2 xs ys o.
-  Proof. intros xs ys o hx hy Ax Ay. apply (sum_rates_is_intensity_2d mid) with (hx := hx) (hy := hy); assumption. Qed.
+  (* the rates of ALL non-origin states of the product grid, as the code computes them, exist (no IndexError) and sum to the intensity the
+     process reports (the eight blocks), for any two admissible axes OF EQUAL LENGTHS sharing the origin index: telescoping axis by axis *)
+  Theorem C01_sum_rates_is_intensity_2d : forall xs ys o hx hy, admissible xs o hx -> admissible ys o hy -> length ys = length xs ->
+    exists t, q_matrix2_c mid mass2 xs ys o = Some t /\ t = q_matrix2 mid mass2 xs ys o /\ qsum2 t == intensity2 mid mass2 xs ys o.
+  Proof.
+    intros xs ys o hx hy Ax Ay E. exists (q_matrix2 mid mass2 xs ys o). split; [apply q_matrix2_c_eq; exact E|]. split; [reflexivity|].
+    apply (sum_rates_is_intensity_2d mid) with (hx := hx) (hy := hy); assumption.
+  Qed.
 
-  (* the product cells tile the truncated box minus the central cell; every state lies in its own cell *)
-  Theorem C01_cells_tile_2d : forall xs ys o hx hy, admissible xs o hx -> admissible ys o hy ->
+  (* the product cells tile the truncated box minus the central cell; every state lies in its own cell; on axes of equal lengths the
+     code's upper cell bound (clamp with len(axes[0])) is the cell's *)
+  Theorem C01_cells_tile_2d : forall xs ys o hx hy, admissible xs o hx -> admissible ys o hy -> length ys = length xs ->
     (forall i j, (i < length xs)%nat -> (j < length ys)%nat ->
-       (cell_lo mid xs i <= nthq xs i <= cell_hi mid xs i /\ cell_lo mid ys j <= nthq ys j <= cell_hi mid ys j)
+       (cell_hi_c mid (length xs) xs i = Some (cell_hi mid xs i) /\ cell_hi_c mid (length xs) ys j = Some (cell_hi mid ys j))
+       /\ (cell_lo mid xs i <= nthq xs i <= cell_hi mid xs i /\ cell_lo mid ys j <= nthq ys j <= cell_hi mid ys j)
        /\ ((i, j) <> (o, o) -> avoids (cell_lo mid xs i, cell_lo mid ys j) (cell_hi mid xs i, cell_hi mid ys j))
        /\ ((i + 1 < length xs)%nat -> cell_hi mid xs i = cell_lo mid xs (i + 1))
        /\ ((j + 1 < length ys)%nat -> cell_hi mid ys j = cell_lo mid ys (j + 1)))
@@ -127,17 +138,25 @@ Section Measure2d.
     /\ cell_lo mid ys 0 == headq ys /\ cell_hi mid ys (length ys - 1) == lastq ys
     /\ cell_hi mid xs (o - 1) == h_left mid xs o /\ cell_lo mid xs (o + 1) == h_right mid xs o
     /\ cell_hi mid ys (o - 1) == h_left mid ys o /\ cell_lo mid ys (o + 1) == h_right mid ys o.
-  Proof. intros xs ys o hx hy Ax Ay. apply (cells_tile_2d mid) with (hx := hx) (hy := hy); assumption. Qed.
+  Proof.
+    intros xs ys o hx hy Ax Ay E. destruct (cells_tile_2d mid mid_between mid_refl mid_proper xs ys o hx hy Ax Ay) as (T & R).
+    split; [|exact R]. intros i j Hi Hj. split; [|apply T; assumption].
+    split; [apply cell_hi_c_eq; [reflexivity|exact Hi]|apply cell_hi_c_eq; [exact E|exact Hj]].
+  Qed.
 
-  Theorem C01_rates_nonneg_2d : forall xs ys o hx hy i j, admissible xs o hx -> admissible ys o hy ->
-    (i < length xs)%nat -> (j < length ys)%nat -> 0 <= q_entry2 mid mass2 xs ys o i j.
-  Proof. intros xs ys o hx hy i j Ax Ay. apply (rates_nonneg_2d mid) with (hx := hx) (hy := hy); assumption. Qed.
+  Theorem C01_rates_nonneg_2d : forall xs ys o hx hy i j, admissible xs o hx -> admissible ys o hy -> length ys = length xs ->
+    (i < length xs)%nat -> (j < length ys)%nat -> exists r, q_entry2_c mid mass2 xs ys o i j = Some r /\ 0 <= r.
+  Proof.
+    intros xs ys o hx hy i j Ax Ay E Hi Hj. exists (q_entry2 mid mass2 xs ys o i j). split; [apply q_entry2_c_eq; assumption|].
+    apply (rates_nonneg_2d mid) with (hx := hx) (hy := hy); assumption.
+  Qed.
 End Measure2d.
 
 (* ---------------- dimension 3: the product grid of a 3-d copula chain (Model/Chain3d.v: q_entry3 / q_tensor3 / intensity3, the
    3^3-1 = 26 boxes of compute_intensity_of_jumps).  mass3 a b = LevyCopulaModel.mass(a, b) (_mass_3d), the box mass: additive under
-   a split of any one coordinate interval and non-negative ON BOXES THAT AVOID THE ORIGIN.  The three axes may differ (lengths,
-   points, spatial steps hx hy hz); they share the origin index, as CTMCGrid's single origin_coordinate imposes. *)
+   a split of any one coordinate interval and non-negative ON BOXES THAT AVOID THE ORIGIN.  The three axes may differ (points, spatial
+   steps hx hy hz) but have EQUAL LENGTHS (the code clamps every axis with len(axes[0])); they share the origin index, as CTMCGrid's single
+   origin_coordinate imposes. *)
 Section Measure3d.
   Variable mid : Q -> Q -> Q.
   Hypothesis mid_between : forall x y, x < y -> x < mid x y /\ mid x y < y.
@@ -155,12 +174,13 @@ Section Measure3d.
     a1 == a1' -> a2 == a2' -> a3 == a3' -> b1 == b1' -> b2 == b2' -> b3 == b3' ->
     mass3 (a1, a2, a3) (b1, b2, b3) == mass3 (a1', a2', a3') (b1', b2', b3').
 
-  (* the rates of ALL non-origin states of the 3-d product grid sum to the intensity the process reports (the 26 boxes), for any
-     three admissible axes of any lengths sharing the origin index: telescoping axis by axis *)
+  (* the rates of ALL non-origin states of the 3-d product grid, as the code computes them, exist and sum to the intensity the process
+     reports (the 26 boxes), for any three admissible axes OF EQUAL LENGTHS sharing the origin index: telescoping axis by axis *)
   Theorem C01_sum_rates_is_intensity_3d : forall xs ys zs o hx hy hz, admissible xs o hx -> admissible ys o hy -> admissible zs o hz ->
-    qsum3 (q_tensor3 mid mass3 xs ys zs o) == intensity3 mid mass3 xs ys zs o.
+    length ys = length xs -> length zs = length xs ->
+    exists t, q_tensor3_c mid mass3 xs ys zs o = Some t /\ t = q_tensor3 mid mass3 xs ys zs o /\ qsum3 t == intensity3 mid mass3 xs ys zs o.
   Proof.
-    intros xs ys zs o hx hy hz Ax Ay Az.
+    intros xs ys zs o hx hy hz Ax Ay Az E1 E2. exists (q_tensor3 mid mass3 xs ys zs o). split; [apply q_tensor3_c_eq; assumption|]. split; [reflexivity|].
     apply (sum_rates_is_intensity_3d mid mid_between mid_refl mid_proper mass3 mass3_add1 mass3_add2 mass3_add3 mass3_proper)
       with (hx := hx) (hy := hy) (hz := hz); assumption.
   Qed.
@@ -169,8 +189,11 @@ Section Measure3d.
      non-origin state avoids the origin (so its mass is finite also for infinite-activity margins), neighbouring cells share a
      face along each axis, the outermost faces are the truncation bounds and the innermost ones the faces of the central cell *)
   Theorem C01_cells_tile_3d : forall xs ys zs o hx hy hz, admissible xs o hx -> admissible ys o hy -> admissible zs o hz ->
+    length ys = length xs -> length zs = length xs ->
     (forall i j k, (i < length xs)%nat -> (j < length ys)%nat -> (k < length zs)%nat ->
-       (cell_lo mid xs i <= nthq xs i <= cell_hi mid xs i /\ cell_lo mid ys j <= nthq ys j <= cell_hi mid ys j
+       (cell_hi_c mid (length xs) xs i = Some (cell_hi mid xs i) /\ cell_hi_c mid (length xs) ys j = Some (cell_hi mid ys j)
+        /\ cell_hi_c mid (length xs) zs k = Some (cell_hi mid zs k))
+       /\ (cell_lo mid xs i <= nthq xs i <= cell_hi mid xs i /\ cell_lo mid ys j <= nthq ys j <= cell_hi mid ys j
         /\ cell_lo mid zs k <= nthq zs k <= cell_hi mid zs k)
        /\ ((i, j, k) <> (o, o, o) ->
            avoids3 (cell_lo mid xs i, cell_lo mid ys j, cell_lo mid zs k) (cell_hi mid xs i, cell_hi mid ys j, cell_hi mid zs k))
@@ -183,18 +206,26 @@ Section Measure3d.
         /\ cell_hi mid ys (o - 1) == h_left mid ys o /\ cell_lo mid ys (o + 1) == h_right mid ys o)
     /\ (cell_lo mid zs 0 == headq zs /\ cell_hi mid zs (length zs - 1) == lastq zs
         /\ cell_hi mid zs (o - 1) == h_left mid zs o /\ cell_lo mid zs (o + 1) == h_right mid zs o).
-  Proof. intros xs ys zs o hx hy hz Ax Ay Az. apply (cells_tile_3d mid mid_between mid_refl mid_proper) with (hx := hx) (hy := hy) (hz := hz); assumption. Qed.
+  Proof.
+    intros xs ys zs o hx hy hz Ax Ay Az E1 E2.
+    destruct (cells_tile_3d mid mid_between mid_refl mid_proper xs ys zs o hx hy hz Ax Ay Az) as (T & R).
+    split; [|exact R]. intros i j k Hi Hj Hk. split; [|apply T; assumption].
+    split; [apply cell_hi_c_eq; [reflexivity|exact Hi]|]. split; [apply cell_hi_c_eq; [exact E1|exact Hj]|apply cell_hi_c_eq; [exact E2|exact Hk]].
+  Qed.
 
   Theorem C01_rates_nonneg_3d : forall xs ys zs o hx hy hz i j k, admissible xs o hx -> admissible ys o hy -> admissible zs o hz ->
-    (i < length xs)%nat -> (j < length ys)%nat -> (k < length zs)%nat -> 0 <= q_entry3 mid mass3 xs ys zs o i j k.
+    length ys = length xs -> length zs = length xs ->
+    (i < length xs)%nat -> (j < length ys)%nat -> (k < length zs)%nat -> exists r, q_entry3_c mid mass3 xs ys zs o i j k = Some r /\ 0 <= r.
   Proof.
-    intros xs ys zs o hx hy hz i j k Ax Ay Az.
+    intros xs ys zs o hx hy hz i j k Ax Ay Az E1 E2 Hi Hj Hk. exists (q_entry3 mid mass3 xs ys zs o i j k). split; [apply q_entry3_c_eq; assumption|].
     apply (rates_nonneg_3d mid mid_between mid_refl mid_proper mass3 mass3_pos) with (hx := hx) (hy := hy) (hz := hz); assumption.
   Qed.
 End Measure3d.
 
-(* the hypotheses of Section Measure3d are satisfiable, and discharged for the family the correspondence runs: the box mass of a
-   3-d density table with non-negative densities is additive in each coordinate, non-negative and respects == on ALL boxes *)
+(* the hypotheses of Section Measure3d are satisfiable, and discharged for the family the correspondence group chain3d runs: the box mass of a
+   3-d density table with non-negative densities is additive in each coordinate, non-negative and respects == on ALL boxes.  step_mass3 is the
+   integral of the HARNESS's table (harness/c01_table3.py TableN), not a model of LevyCopulaModel._mass_3d: that the library's mass of a cell
+   equals it is what the exact group chain3d compares per state (tables supported inside the grid: truncation inactive). *)
 Theorem C01_table_mass3_is_a_measure : forall ps, Forall (fun p => 0 <= dens3 p) ps ->
   (forall a b c y1 y2 z1 z2, a <= b -> b <= c ->
      step_mass3 ps (a, y1, z1) (c, y2, z2) == step_mass3 ps (a, y1, z1) (b, y2, z2) + step_mass3 ps (b, y1, z1) (c, y2, z2))
@@ -212,10 +243,38 @@ Qed.
 
 (* composed: for the 3-d table chains NO hypothesis on the mass is left (arithmetic-mean middle, the one CTMCGrid.middle computes) *)
 Theorem C01_table_chain_3d : forall ps xs ys zs o hx hy hz, Forall (fun p => 0 <= dens3 p) ps ->
-  admissible xs o hx -> admissible ys o hy -> admissible zs o hz ->
-  qsum3 (q_tensor3 amid (step_mass3 ps) xs ys zs o) == intensity3 amid (step_mass3 ps) xs ys zs o
-  /\ (forall i j k, (i < length xs)%nat -> (j < length ys)%nat -> (k < length zs)%nat -> 0 <= q_entry3 amid (step_mass3 ps) xs ys zs o i j k).
-Proof. exact step_chain_3d. Qed.
+  admissible xs o hx -> admissible ys o hy -> admissible zs o hz -> length ys = length xs -> length zs = length xs ->
+  (exists t, q_tensor3_c amid (step_mass3 ps) xs ys zs o = Some t /\ qsum3 t == intensity3 amid (step_mass3 ps) xs ys zs o)
+  /\ (forall i j k, (i < length xs)%nat -> (j < length ys)%nat -> (k < length zs)%nat ->
+        exists r, q_entry3_c amid (step_mass3 ps) xs ys zs o i j k = Some r /\ 0 <= r).
+Proof.
+  intros ps xs ys zs o hx hy hz D Ax Ay Az E1 E2. destruct (step_chain_3d ps xs ys zs o hx hy hz D Ax Ay Az) as (S & P). split.
+  - exists (q_tensor3 amid (step_mass3 ps) xs ys zs o). split; [apply q_tensor3_c_eq; assumption|exact S].
+  - intros i j k Hi Hj Hk. exists (q_entry3 amid (step_mass3 ps) xs ys zs o i j k). split; [apply q_entry3_c_eq; assumption|apply P; assumption].
+Qed.
+
+(* ---------------- wave 7 (audit 4 X-d / D3): the code's clamp.  right_point(CoordinateND) takes min(len(axes[0]) - 1, c + 1) on EVERY axis:
+   on an axis as long as axes[0] this is the axis' own right neighbour (right_point of Model/Grid.v); on a LONGER axis every index from
+   len(axes[0]) - 1 on gets the point xs[len(axes[0]) - 1] as right neighbour (cells collapse / reverse); on a SHORTER axis the last index
+   raises IndexError.  No constructor of the library builds unequal lengths; the public CTMCGrid(h, origin, axes) accepts them. *)
+Theorem C01_code_clamp : forall n0 xs,
+  (length xs = n0 -> forall k, (k < length xs)%nat -> right_point_c n0 xs k = Some (Grid.right_point xs k))
+  /\ ((1 <= n0)%nat -> (n0 <= length xs)%nat -> forall k, (n0 - 1 <= k)%nat -> right_point_c n0 xs k = Some (nthq xs (n0 - 1)))
+  /\ ((length xs < n0)%nat -> (1 <= length xs)%nat -> right_point_c n0 xs (length xs - 1) = None).
+Proof.
+  intros n0 xs. split; [intros E k Hk; apply right_point_c_eq; assumption|]. split; [intros H1 H2 k Hk; apply right_point_c_stuck; assumption|].
+  apply right_point_c_raises.
+Qed.
+
+(* the equal-lengths hypothesis cannot be dropped: admissible axes of lengths (5,7,5), a density table inside the grid box: all rates exist
+   but their sum is SMALLER than the reported intensity; lengths (7,5,5): the construction of the rates raises (63 of 174 states on /repo).
+   Both witnesses are run on the real MarkovChainLevyCopula by the correspondence group chain3d_uneq (first witness: reported intensity 2.0, rates sum 1.5). *)
+Theorem C01_unequal_lengths_refuted :
+  (exists ps xs ys zs o hx hy hz t, Forall (fun p => 0 <= dens3 p) ps /\ admissible xs o hx /\ admissible ys o hy /\ admissible zs o hz
+     /\ q_tensor3_c amid (step_mass3 ps) xs ys zs o = Some t /\ qsum3 t < intensity3 amid (step_mass3 ps) xs ys zs o)
+  /\ (exists ps xs ys zs o hx hy hz, Forall (fun p => 0 <= dens3 p) ps /\ admissible xs o hx /\ admissible ys o hy /\ admissible zs o hz
+     /\ q_tensor3_c amid (step_mass3 ps) xs ys zs o = None).
+Proof. exact unequal_lengths_refuted. Qed.
 
 (* _truncated_interval (generated from the source): intersection with [l,r], degenerate when disjoint *)
 Theorem C01_truncated_interval : forall l r a b, l <= r -> a <= b ->
@@ -312,8 +371,8 @@ Theorem C01_gen_compute_intensity_of_jumps_2d_is_model : forall (mass2 : Q * Q -
   GenTieChain2d.compute_intensity_of_jumps_2d mass2 mid xs ys (Z.of_nat o) == Chain.intensity2 mid mass2 xs ys o.
 Proof. exact gen_compute_intensity_of_jumps_2d_eq_model. Qed.
 
-(* ... hence the rates of all non-origin states of a 2-d product grid sum to the GENERATED intensity (arithmetic-mean middle, any box
-   mass additive per coordinate away from the origin, any two admissible axes sharing the origin index) *)
+(* ... hence the rates of all non-origin states of a 2-d product grid (code's clamp) sum to the GENERATED intensity (arithmetic-mean middle,
+   any box mass additive per coordinate away from the origin, any two admissible axes of equal lengths sharing the origin index) *)
 Theorem C01_gen_sum_rates_is_intensity_2d : forall (mass2 : Q * Q -> Q * Q -> Q),
   (forall a1 b1 c1 y1 y2, a1 <= b1 -> b1 <= c1 -> avoids (a1, y1) (c1, y2) ->
      mass2 (a1, y1) (c1, y2) == mass2 (a1, y1) (b1, y2) + mass2 (b1, y1) (c1, y2)) ->
@@ -321,9 +380,13 @@ Theorem C01_gen_sum_rates_is_intensity_2d : forall (mass2 : Q * Q -> Q * Q -> Q)
      mass2 (x1, a2) (x2, c2) == mass2 (x1, a2) (x2, b2) + mass2 (x1, b2) (x2, c2)) ->
   (forall a1 a2 b1 b2 a1' a2' b1' b2', a1 == a1' -> a2 == a2' -> b1 == b1' -> b2 == b2' ->
      mass2 (a1, a2) (b1, b2) == mass2 (a1', a2') (b1', b2')) ->
-  forall xs ys (o : nat) hx hy, admissible xs o hx -> admissible ys o hy ->
-  qsum2 (q_matrix2 amid mass2 xs ys o) == GenTieChain2d.compute_intensity_of_jumps_2d mass2 GenTieChain.middle xs ys (Z.of_nat o).
-Proof. exact gen_sum_rates_is_intensity_2d. Qed.
+  forall xs ys (o : nat) hx hy, admissible xs o hx -> admissible ys o hy -> length ys = length xs ->
+  exists t, q_matrix2_c amid mass2 xs ys o = Some t
+            /\ qsum2 t == GenTieChain2d.compute_intensity_of_jumps_2d mass2 GenTieChain.middle xs ys (Z.of_nat o).
+Proof.
+  intros mass2 H1 H2 H3 xs ys o hx hy Ax Ay E. exists (q_matrix2 amid mass2 xs ys o). split; [apply q_matrix2_c_eq; exact E|].
+  apply (gen_sum_rates_is_intensity_2d mass2 H1 H2 H3 xs ys o hx hy Ax Ay).
+Qed.
 
 (* ---------------- the ALIAS / TABLE rate path of create_sampling_method (wave 6), COMPOSED WITH C02: C02's sampler theorems assume a
    probability vector; for the vector the factory builds from an admissible chain (Model/Factory.v vec_jump = create_vec_jump_matrix of
@@ -373,6 +436,67 @@ Example C01_factory_nonvacuous_values :
   /\ Qeq_bool (StepLaw.len_of 1 (C02_Alias.alias_segs (length p) (snd (Alias.create_alias p)) (fst (Alias.create_alias p)))) (6 # 25) = true
   /\ Qeq_bool (C02_Table.table_mass (Table.create_table p) 1) (6 # 25) = true.
 Proof. vm_compute. repeat split. Qed.
+
+(* ================= WHICH MEASURE a copula chain integrates (wave 7, audit 4 A4 / D5; Proofs/C01_CopulaTrunc.v, composed read-only with C12's
+   generated mass_2d / mass_3d and C19's box_mass2 / box_mass3).  MarkovChainLevyCopula deep-copies the model and truncates EVERY MARGIN to
+   (axes[k][0], axes[k][-1]) ("Truncate all marginal measures", levycopulamodel.py:121): the rates are masses under nu~ = (copula F, truncated
+   margins).  DECISION: in C01, "(truncated) Levy-measure mass of a cell" of a copula chain is read as the property text's anchors say -- the
+   measure RESTRICTED to the truncated support, nu(cell) for a cell inside the grid box.  The code does not compute that when a margin has mass
+   outside its axis (finding F-C01-1, C01_copula_rate_is_restricted_nu_refuted); it computes nu~(cell), for which the consequences of the
+   property (cells tile, sum of the rates = reported intensity) still hold, with NO additivity hypothesis: *)
+From RV Require Import Base.ExtNum Model.Copula Gen.GenC12Mass Model.MassNd Proofs.C19_Theta2d Proofs.C19_StepTails Proofs.C19_Theta3d
+  Proofs.C19_StepTails3 Proofs.C01_CopulaTrunc.
+
+(* ANY tail integrals U1 (marginal_tail_integral) / UI (margin_tail_integral) that are functions of the rational number: the generated
+   LevyCopulaModel.mass (inclusion-exclusion over the corners with the axis-straddling corrections) is additive on boxes avoiding the origin,
+   so the code's rates exist and sum to the reported intensity *)
+Theorem C01_copula_chain_sum_2d : forall (U1 : nat -> ext Q -> Q) (UI : idx -> list (ext Q) -> Q), tails_proper2 U1 UI ->
+  forall xs ys o hx hy, admissible xs o hx -> admissible ys o hy -> length ys = length xs ->
+  exists t, q_matrix2_c amid (box_mass2 U1 UI) xs ys o = Some t /\ qsum2 t == intensity2 amid (box_mass2 U1 UI) xs ys o.
+Proof. exact copula_chain_sum_2d. Qed.
+
+Theorem C01_copula_chain_sum_3d : forall (U1 : nat -> ext Q -> Q) (UI : idx -> list (ext Q) -> Q), tails_proper3 U1 UI ->
+  forall xs ys zs o hx hy hz, admissible xs o hx -> admissible ys o hy -> admissible zs o hz -> length ys = length xs -> length zs = length xs ->
+  exists t, q_tensor3_c amid (box_mass3 U1 UI) xs ys zs o = Some t /\ qsum3 t == intensity3 amid (box_mass3 U1 UI) xs ys zs o.
+Proof. exact copula_chain_sum_3d. Qed.
+
+(* the instances the exact groups chain2d_trunc / chain3d_trunc run on the real MarkovChainLevyCopula: step margins of ANY support (inside,
+   equal to or EXCEEDING the grid: truncation active), the library's IndependentComponentsCopula / DependentComponentsCopula (C12's models);
+   chain_mass2/3 clips each margin to (headq axis, lastq axis) as truncate_levy_measure(grid.truncations) does *)
+Theorem C01_step_copula_chain_sum_2d : forall ck m0 m1 xs ys o hx hy, admissible xs o hx -> admissible ys o hy -> length ys = length xs ->
+  exists t, q_matrix2_c amid (chain_mass2 ck m0 m1 xs ys) xs ys o = Some t /\ qsum2 t == intensity2 amid (chain_mass2 ck m0 m1 xs ys) xs ys o.
+Proof. exact step_copula_chain_sum_2d. Qed.
+
+Theorem C01_step_copula_chain_sum_3d : forall ck m0 m1 m2 xs ys zs o hx hy hz, admissible xs o hx -> admissible ys o hy -> admissible zs o hz ->
+  length ys = length xs -> length zs = length xs ->
+  exists t, q_tensor3_c amid (chain_mass3 ck m0 m1 m2 xs ys zs) xs ys zs o = Some t
+            /\ qsum3 t == intensity3 amid (chain_mass3 ck m0 m1 m2 xs ys zs) xs ys zs o.
+Proof. exact step_copula_chain_sum_3d. Qed.
+
+(* FINDING F-C01-1: "rate of a state = Levy-measure mass nu(cell) of its cell" is false of the code as soon as truncation is active: a cell
+   strictly inside the grid box whose rate (chain_mass2 = copula of the truncated margins) differs from nu(cell) (nu_mass2 = the model's own
+   measure), and the reported intensity differs from nu(box minus central cell).  Witness (run on /repo by group chain2d_trunc and by the
+   oracle): margins density 1 on [1,4] and 3 on [1,2], DependentComponentsCopula, grid [-2,-1,0,1,2]^2: state (3,4), cell [1/2,3/2] x [3/2,2]:
+   rate 1/2, nu(cell) = 0; intensity 3 against 1. *)
+Theorem C01_copula_rate_is_restricted_nu_refuted :
+  exists ck m0 m1 xs o h i j, admissible xs o h /\ (i < length xs)%nat /\ (j < length xs)%nat /\ (i, j) <> (o, o)
+    /\ headq xs <= cell_lo amid xs i /\ cell_hi amid xs i <= lastq xs /\ headq xs <= cell_lo amid xs j /\ cell_hi amid xs j <= lastq xs
+    /\ ~ q_entry2 amid (chain_mass2 ck m0 m1 xs xs) xs xs o i j == q_entry2 amid (nu_mass2 ck m0 m1) xs xs o i j
+    /\ ~ intensity2 amid (chain_mass2 ck m0 m1 xs xs) xs xs o == intensity2 amid (nu_mass2 ck m0 m1) xs xs o.
+Proof. exact copula_rate_is_restricted_nu_refuted. Qed.
+
+(* the values of the witness, and non-vacuity of C01_step_copula_chain_sum_2d with truncation ACTIVE (margin 0 has mass 2 beyond x = 2) *)
+Example C01_truncation_witness_values :
+  admissibleb tr_xs 2 1 = true
+  /\ Qeq_bool (q_entry2 amid (chain_mass2 Dep tr_m0 tr_m1 tr_xs tr_xs) tr_xs tr_xs 2 3 4) (1 # 2) = true
+  /\ Qeq_bool (q_entry2 amid (nu_mass2 Dep tr_m0 tr_m1) tr_xs tr_xs 2 3 4) 0 = true
+  /\ Qeq_bool (cell_lo amid tr_xs 3) (1 # 2) = true /\ Qeq_bool (cell_hi amid tr_xs 3) (3 # 2) = true
+  /\ Qeq_bool (cell_lo amid tr_xs 4) (3 # 2) = true /\ Qeq_bool (cell_hi amid tr_xs 4) 2 = true
+  /\ Qeq_bool (intensity2 amid (chain_mass2 Dep tr_m0 tr_m1 tr_xs tr_xs) tr_xs tr_xs 2) 3 = true
+  /\ Qeq_bool (intensity2 amid (nu_mass2 Dep tr_m0 tr_m1) tr_xs tr_xs 2) 1 = true
+  /\ Qeq_bool (q_entry2 amid (chain_mass2 Dep tr_m0 tr_m1 tr_xs tr_xs) tr_xs tr_xs 2 3 3) 0 = true
+  /\ Qeq_bool (q_entry2 amid (nu_mass2 Dep tr_m0 tr_m1) tr_xs tr_xs 2 3 3) (1 # 2) = true.
+Proof. exact truncation_witness. Qed.
 
 (* ================= OVER THE REALS, COMPOSED WITH C09 (wave 6): Model/ChainR.v is the real-number twin of Model/Chain.v; Gen/GenC01ChainR.v
    regenerates left_point / right_point / middle / create_q_vector over R from the source on every run; the truncated measure is
@@ -514,6 +638,8 @@ Print Assumptions C01_cells_tile_3d.
 Print Assumptions C01_rates_nonneg_3d.
 Print Assumptions C01_table_mass3_is_a_measure.
 Print Assumptions C01_table_chain_3d.
+Print Assumptions C01_code_clamp.
+Print Assumptions C01_unequal_lengths_refuted.
 Print Assumptions C01_truncated_interval.
 Print Assumptions C01_step_mass_is_a_measure.
 Print Assumptions C01_nonvacuous.
@@ -529,6 +655,12 @@ Print Assumptions C01_gen_sum_rates_is_intensity_2d.
 Print Assumptions C01_factory_vector_is_distribution.
 Print Assumptions C01_alias_table_chain_law.
 Print Assumptions C01_factory_nonvacuous_values.
+Print Assumptions C01_copula_chain_sum_2d.
+Print Assumptions C01_copula_chain_sum_3d.
+Print Assumptions C01_step_copula_chain_sum_2d.
+Print Assumptions C01_step_copula_chain_sum_3d.
+Print Assumptions C01_copula_rate_is_restricted_nu_refuted.
+Print Assumptions C01_truncation_witness_values.
 Print Assumptions C01_chain_R.
 Print Assumptions C01_gen_create_q_vector_R_is_model.
 Print Assumptions C01_gen_compute_intensity_of_jumps_1d_R_is_model.
